@@ -1,8 +1,11 @@
 //! vh: harness that drives the real ipc-channel crate for the correspondence check.
+mod codec;
 mod conc;
 mod crash;
 mod frag;
+mod nullser;
 mod prog;
+mod res;
 mod shm;
 mod util;
 mod vanish;
@@ -19,7 +22,9 @@ fn main() {
     match args[1].as_str() {
         "frag" => frag::run(),
         "conc" => conc::run(),
+        "codec" => codec::run(),
         "prog" => prog::run(),
+        "res" => res::run(),
         "vanish" => vanish::run(),
         "crash" => crash::run(),
         "shm" => shm::run(),
